@@ -48,6 +48,7 @@ AUTOLINKS = ['http://example.com/path', 'https://a.b/c?d=e&f=g', 'ftp://host/fil
 EMAILS = ['user@example.com', 'first.last@sub.example.org']
 ESCAPABLE = list('!"#$%&\'()*+,-./:;<=>?@[\\]^_`{}~')     # every ASCII punctuation character except '|' (table cells)
 ENTITIES = [('&amp;', '&'), ('&lt;', '<'), ('&gt;', '>'), ('&copy;', '©'), ('&#35;', '#'), ('&#x41;', 'A'), ('&quot;', '"'), ('&auml;', 'ä'), ('&#169;', '©'),
+            ('&#128;', '\x80'), ('&#159;', '\x9f'), ('&#x110000;', '\ufffd'), ('&#xD800;', '\ufffd'), ('&#0;', '\ufffd'),
             ('&nbsp;', '\xa0'), ('&emsp;', '\u2003'), ('&ngE;', '\u2267\u0338'), ('&#X1F600;', '\U0001F600')]
 REFERENCE_LOOKALIKES = ['&copy', '&amp', '&#35', '&notit;', '&copyfoo;', '&ampere;', '&nosuch;', '&#99999999;', '&#xFFFFFFF;', '&#;', '&#x;', '&Amp;', 'AT&T;']
 RAW_HTML = ['<span>', '</span>', '<br />', '<b class="x">', '</b>', '<!-- note -->', '<i data-x=\'1\'>', '<x-y z>']
@@ -63,7 +64,7 @@ HTML7 = [['<x-note>', 'text *here*'], ['<my-tag attr="v">'], ['</x-note>'], ['<a
 
 PROFILES = {
     # switches: see generate()
-    'full': dict(rich_links=True, exotic_words=True, ws_blank_lines=True),
+    'full': dict(rich_links=True, exotic_words=True, ws_blank_lines=True, adjacent_lists=True),
     'roundtrip': dict(entities=False, indent4_cont=False, empty_items=False, rich_links='plain', ws_blank_lines=True),
     'normalform': dict(entities=False, indent4_cont=False, canonical=True, empty_items=False, blank_start_items=False),
     'prose': dict(entities=False, indent4_cont=False, prose=True, empty_items=False),
@@ -86,6 +87,8 @@ class Opt:
         self.table_escaped_pipe = True         # (was off for the round-trip profiles: C09-escaped-pipe-in-table-cell, repaired in f65540f)
         self.table_first_in_item = False   # known finding C03-table-starts-later-list-item
         self.para_after_closed_container = False   # known finding C03-lazy-after-nonparagraph: off by default
+        self.odd_blank_lines = False  # blank lines made of FF / NBSP / EM SPACE ... (round-trip profile only)
+        self.adjacent_lists = False   # a list directly followed (after a blank line) by a list of another type (profile "full")
         self.ws_blank_lines = False   # blank lines made of spaces / tabs (profiles "full", "roundtrip")
         self.exotic_words = False     # words containing FF / NEL / LS ... (profile "full")
         self.rich_links = False       # destinations / titles with escapes, references and Markdown-significant characters (profile "full")
@@ -529,6 +532,17 @@ class Gen:
         # R5: two lists are never adjacent (a list directly after a list would merge with it, or - with another marker -
         # runs into known finding C03-trailing-blank-makes-single-item-list-loose)
         if kind == 'list' and prev is not None and prev.kind == 'list':
+            # ... except that a list of another type (5.3: other bullet character / other delimiter / bullet vs ordered) after a
+            # list is a spelling of two lists; a blank line always separates them (can_follow).  Known finding
+            # C03-trailing-blank-makes-single-item-list-loose: not after a list whose last item holds several blocks
+            if len(prev.items[-1].blocks) <= 1 and opt.adjacent_lists and self.rng.random() < 0.5:
+                nd = self.list_(depth, in_quote)
+                if nd.ordered == prev.ordered:
+                    if nd.ordered:
+                        nd.delim = ')' if prev.delim == '.' else '.'
+                    else:
+                        nd.bullet = next(c for c in '-+*' if c != prev.bullet)
+                return nd
             kind = 'para'
         # a paragraph after a paragraph needs a blank line (always given); a paragraph after a quote/list whose last
         # leaf is a paragraph would be lazy continuation without the blank line (always given, see can_follow)
@@ -773,7 +787,9 @@ def check_tree(blocks, opt, ctx='doc', in_quote=False, last_chain=True):
             # container rules; only the unambiguous shape is generated: the fence ends the document
             raise AssertionError('unclosed fence not at the end of the document')
         if k == 'list' and prev is not None and prev.kind == 'list':
-            raise AssertionError('R5: adjacent lists')
+            same = nd.ordered == prev.ordered and (nd.delim == prev.delim if nd.ordered else nd.bullet == prev.bullet)
+            if same or len(prev.items[-1].blocks) > 1 or not opt.adjacent_lists:
+                raise AssertionError('R5: adjacent lists')
         if k == 'icode' and (prev is not None and prev.kind in ('para', 'list', 'icode') or (i == 0 and ctx == 'item')):
             raise AssertionError('R6: indented code position')
         if k == 'setext' and in_quote and not opt.setext_in_quote:
@@ -864,7 +880,7 @@ class Emitter:
         if self.opt.canonical or not self.opt.indent or self.rng.random() > 0.15:
             return ''
         self.stat('trailing-spaces')
-        return ' ' * self.rng.randint(1, 3)
+        return self.rng.choice((' ', '  ', '   ', ' ', '  ', '\t', ' \t', '\t '))       # "spaces or tabs"
 
     def e_para(self, nd, ctx):
         rng, opt = self.rng, self.opt
@@ -911,7 +927,14 @@ class Emitter:
             while nd.lines and nd.lines[-1] == '':
                 nd.lines.pop()      # whether trailing blank lines belong to an unclosed fence depends on its container: keep out
         f = nd.ch * nd.length
-        out = [Line(ind + f + ((' ' if self.rng.random() < 0.3 and nd.info else '') + nd.info), kind='fence')]
+        if len(ind) >= 1 and nd.closed and not self.opt.canonical and self.rng.random() < 0.25:
+            # 4.5: a line of fence characters indented four or more columns is content, also inside an indented fence
+            # (written with ind + k spaces, k chosen so that the source line has at least four)
+            k = self.rng.randint(4 - len(ind), 3)
+            nd.lines.insert(self.rng.randint(0, len(nd.lines)), ' ' * k + f + nd.ch * self.rng.choice((0, 0, 2)))
+            self.stat('fence-looking-content-line')
+        out = [Line(ind + f + ((self.rng.choice((' ', ' ', '\t', ' \t ')) if self.rng.random() < 0.3 and nd.info and not self.opt.canonical else '')
+                               + nd.info), kind='fence')]
         for l in nd.lines:
             out.append(Line((ind + l) if l else '', kind='fence-body'))
         if nd.closed:
@@ -1288,6 +1311,11 @@ def emit(rng, opt, g, blocks, profile='full', leading_blank=None):
             if ln.kind == 'blank' and rng.random() < 0.15:
                 ln.text += rng.choice((' ', '  ', '   ', '    ', '     ', '        ', '\t', ' \t', '  \t '))
                 em.stat('blank-line-with-white-space')
+            elif ln.kind == 'blank' and opt.odd_blank_lines and ln.text == '' and rng.random() < 0.05:
+                # (only where no tree oracle is involved: the parser takes a line of form feeds, no-break or em spaces for
+                # a blank line - finding C04/C14-unicode-whitespace - and must at least do so consistently on a round trip)
+                ln.text = rng.choice(('\x0c', '\xa0', '\u2003', '\x0b', ' \xa0 ', '\x1c'))
+                em.stat('blank-line-of-odd-white-space')
     import re
     hr = re.compile(r'^(?:[> ]|[-+*] +|\d{1,9}[.)] +)*([-_*])(?: *\1){2,} *$')
     for ln in lines:
